@@ -442,6 +442,8 @@ class ExcelCompiler:
             set to true to set the entire range to the inserted list.
         """
 
+        self._connect_pending_cells()
+
         if list_like(value) and not set_as_range:
             value = tuple(flatten(value))
             if list_like(address):
@@ -912,6 +914,8 @@ class ExcelCompiler:
             or iterable of these three
         :return: evaluated value/values
         """
+        self._connect_pending_cells()
+
         if str(address) not in self.cell_map:
             if list_like(address):
                 if not isinstance(address, (tuple, list)):
@@ -999,6 +1003,21 @@ class ExcelCompiler:
         if not recursed:
             # if not entered to process one cell / cellrange process other work
             self._process_gen_graph()
+
+    def _connect_pending_cells(self):
+        """Finish the graph work an interrupted build left queued
+
+        A build that raised (e.g. a formula referring to a missing sheet)
+        leaves the cells it had already created in `graph_todos`.  They are in
+        the cell map, so evaluating them does not start a new build: connect
+        them first, or they are evaluated without their precedent edges.
+        """
+        while self.graph_todos:
+            try:
+                self._process_gen_graph()
+            except Exception:
+                # the cell which can not be built reports when it is evaluated
+                pass
 
     def _process_gen_graph(self):
 
